@@ -392,7 +392,13 @@ func (e *Exec) doCall(fn *ssa.Function, fc *FuncContract, st *State, cc *ssa.Cal
 	// receiver non-nil obligation for pointer-receiver methods (callee assumes it)
 	if callee.Signature.Recv() != nil && len(args) > 0 {
 		if _, isPtr := callee.Signature.Recv().Type().Underlying().(*types.Pointer); isPtr && args[0].A == nil && callee.Pkg != nil && e.eng.inRepo(callee) {
-			e.checkNonNil(st, args[0].S, "recv:"+e.srcText(pos), pos)
+			nilOK := false
+			if cc0 := e.eng.contractFor(callee); cc0 != nil {
+				_, nilOK = cc0.Flags["nil_receiver_ok"]
+			}
+			if !nilOK {
+				e.checkNonNil(st, args[0].S, "recv:"+e.srcText(pos), pos)
+			}
 		}
 	}
 	// library model?
@@ -776,6 +782,8 @@ func (e *Exec) appendVals(st *State, elem types.Type, s, t Val, tIsString bool, 
 	e.memSet(st, k, srt, fmt.Sprintf("(store %s %s %s)", m, ref, newArr))
 	nc := e.sc.fresh("appcap", idx)
 	e.assume(st, and(e.le(nlen, nc), e.le(nc, e.sc.idxLit(maxLen+maxLen))))
+	// within capacity the runtime appends in place: the capacity is the old one
+	e.assume(st, imp(e.le(nlen, "(s-cap "+s.S+")"), eq(nc, "(s-cap "+s.S+")")))
 	return e.sc.define("app", "Slice", fmt.Sprintf("(mk-slice %s %s %s %s)", ref, soff, nlen, nc))
 }
 
